@@ -602,7 +602,7 @@ Qed.
 
 (** *** Handles *)
 
-Definition with_file (fa : option string) (g : grid) : grid :=
+Definition with_file (fa : option fattr) (g : grid) : grid :=
   {| g_vals := g_vals g; g_north := g_north g; g_east := g_east g; g_id := g_id g;
      g_file := fa; g_dims := g_dims g; g_dtype := g_dtype g |}.
 
@@ -620,33 +620,68 @@ Proof.
   destruct (h_south h), (h_north h), (h_west h), (h_east h); reflexivity.
 Qed.
 
-(** what the function computes, whichever way it is called *)
+(** what the function computes, whichever way it is called: the [file]
+    attribute is the object that was given - the string, character by
+    character, or the Path object *)
 Theorem load_surfer_result fs src dt :
   o_result (load_surfer fs src dt) =
   match src with
   | Path p => match fs p with
               | None => Err EIO
-              | Some c => read_lines (Some p) dt c
+              | Some c => read_lines (Some (FStr p)) dt c
               end
+  | PathObj p => match fs p with
+                 | None => Err EIO
+                 | Some c => read_lines (Some (FPathObj p)) dt c
+                 end
   | FileObj h => match hd_state h with
                  | Closed => Err EValue
                  | Opened => read_lines None dt (hd_lines h)
                  end
   end.
 Proof.
-  destruct src as [p|h]; cbn.
+  destruct src as [p|p|h]; cbn; unfold load_path.
+  - destruct (fs p); reflexivity.
   - destruct (fs p); reflexivity.
   - unfold read_handle. destruct (hd_state h); reflexivity.
 Qed.
 
+(** the [file] attribute of a grid loaded from the string [p] is [p] itself,
+    for every string: no normalisation of "./", "//", "/./", "/../" *)
+Theorem file_attr_is_given fs p dt g :
+  o_result (load_surfer fs (Path p) dt) = Ok g -> g_file g = Some (FStr p).
+Proof.
+  rewrite load_surfer_result. destruct (fs p) as [c|]; [|discriminate].
+  intros H. apply load_sound in H.
+  destruct H as (nr & nc & s & n & w & e & rng & rows & H). apply H.
+Qed.
+
+Theorem file_attr_pathobj fs p dt g :
+  o_result (load_surfer fs (PathObj p) dt) = Ok g -> g_file g = Some (FPathObj p).
+Proof.
+  rewrite load_surfer_result. destruct (fs p) as [c|]; [|discriminate].
+  intros H. apply load_sound in H.
+  destruct H as (nr & nc & s & n & w & e & rng & rows & H). apply H.
+Qed.
+
+Theorem file_attr_fileobj fs h dt g :
+  o_result (load_surfer fs (FileObj h) dt) = Ok g -> g_file g = None.
+Proof.
+  rewrite load_surfer_result. destruct (hd_state h); [|discriminate].
+  intros H. apply load_sound in H.
+  destruct H as (nr & nc & s & n & w & e & rng & rows & H). apply H.
+Qed.
+
 (** the file the function opens is closed when it returns or raises, on every
     input; nothing else is opened *)
-Theorem handle_closed fs p dt :
-  match o_opened (load_surfer fs (Path p) dt) with
+Definition is_path (src : source) (p : string) : Prop := src = Path p \/ src = PathObj p.
+
+Theorem handle_closed fs src p dt : is_path src p ->
+  match o_opened (load_surfer fs src dt) with
   | Some h => hd_state h = Closed /\ fs p = Some (hd_lines h)
   | None => fs p = None
-  end /\ o_given (load_surfer fs (Path p) dt) = None.
-Proof. cbn. destruct (fs p); cbn; repeat split; reflexivity. Qed.
+  end /\ o_given (load_surfer fs src dt) = None.
+Proof. intros [-> | ->]; cbn; unfold load_path; destruct (fs p); cbn; repeat split; reflexivity. Qed.
 
 (** a caller's file object is not closed, and no file is opened *)
 Theorem fileobj_untouched fs h dt :
@@ -659,10 +694,13 @@ Proof. split; reflexivity. Qed.
 Theorem path_equals_fileobj fs p c dt :
   fs p = Some c ->
   o_result (load_surfer fs (Path p) dt) =
-  map_result (with_file (Some p))
+  map_result (with_file (Some (FStr p)))
+    (o_result (load_surfer fs (FileObj {| hd_lines := c; hd_state := Opened |}) dt)) /\
+  o_result (load_surfer fs (PathObj p) dt) =
+  map_result (with_file (Some (FPathObj p)))
     (o_result (load_surfer fs (FileObj {| hd_lines := c; hd_state := Opened |}) dt)).
 Proof.
-  intros E. rewrite !load_surfer_result, E. cbn [hd_state hd_lines]. apply read_lines_fileattr.
+  intros E. rewrite !load_surfer_result, E. cbn [hd_state hd_lines]. split; apply read_lines_fileattr.
 Qed.
 
 End Loader.
@@ -829,6 +867,7 @@ Proof.
   unfold grid_is_file. rewrite E1, E2, E3, E4, E5.
   unfold grid_agrees in Ha.
   apply andb_true_iff in Ha as [Ha Adt]. apply andb_true_iff in Ha as [Ha Adims].
+  apply andb_true_iff in Ha as [Ha Aname]. apply andb_true_iff in Ha as [Ha Akeys].
   apply andb_true_iff in Ha as [Ha Afile]. apply andb_true_iff in Ha as [Ha Aid].
   apply andb_true_iff in Ha as [Ha Aeast]. apply andb_true_iff in Ha as [Avals Anorth].
   rewrite Hv in Avals. rewrite Hn in Anorth. rewrite He in Aeast.
@@ -836,14 +875,15 @@ Proof.
   rewrite Hlen, Z.eqb_refl, Avals, Anorth, Aeast. cbn [andb].
   assert (C5 : String.eqb (og_id o) (strip (line f 0)) = true).
   { apply String.eqb_eq in Aid. rewrite <- Aid, Hid. apply String.eqb_refl. }
-  assert (C6 : option_eqb String.eqb (og_file o) fileattr = true).
-  { rewrite Hf in Afile. destruct fileattr as [a|], (og_file o) as [b|]; cbn in *; try discriminate; [|reflexivity].
-    now rewrite String.eqb_sym. }
+  assert (C6 : option_eqb fattr_eqb (og_file o) fileattr = true).
+  { rewrite Hf in Afile. destruct fileattr as [[a|a]|], (og_file o) as [[b|b]|]; cbn in *; try discriminate;
+      try reflexivity; now rewrite String.eqb_sym. }
+  rewrite Hf in Akeys.
   assert (C7 : list_eqb String.eqb (og_dims o) ["northing"; "easting"] = true).
   { rewrite Hd in Adims. now rewrite (list_eqb_sym String.eqb String.eqb_sym). }
   assert (C8 : dtype_eqb (og_dtype o) dt = true).
   { rewrite Hdt in Adt. now destruct dt, (og_dtype o). }
-  rewrite C5, C6, C7, C8. cbn [andb].
+  rewrite C5, C6, Akeys, Aname, C7, C8. cbn [andb].
   now apply range_agrees_status.
 Qed.
 
@@ -859,19 +899,24 @@ Proof.
   apply andb_true_iff in Ha as [Ha Hgiven]. apply andb_true_iff in Ha as [Hres Hleak].
   rewrite load_surfer_result in Hres.
   assert (Hclosed : (ob_leak ob =? 0)%Z = true).
-  { destruct src as [p ex|closed]; cbn in Hleak.
-    - destruct (ex && (p =? p)%string); cbn in Hleak; [|exact Hleak].
-      destruct (ob_leak ob =? 0)%Z; [reflexivity|discriminate].
-    - exact Hleak. }
+  { destruct src as [p ex|p ex|closed]; cbn in Hleak; unfold load_path in Hleak;
+      try (destruct (ex && (p =? p)%string); cbn in Hleak; [|exact Hleak];
+           destruct (ob_leak ob =? 0)%Z; [reflexivity|discriminate]).
+    exact Hleak. }
   unfold surfer_holds. rewrite Hclosed.
   destruct (ob_res ob) as [o|e'].
   - (* a grid was observed *)
-    destruct src as [p ex|closed]; cbn [model_source fst snd readable fileattr_of] in *.
+    destruct src as [p ex|p ex|closed]; cbn [model_source fst snd readable fileattr_of] in *.
     + destruct ex; cbn [andb] in Hres; [|discriminate].
       rewrite String.eqb_refl in Hres.
-      destruct (read_lines pint pflt pval (Some p) dt f) as [g|] eqn:El; [|discriminate].
+      destruct (read_lines pint pflt pval (Some (FStr p)) dt f) as [g|] eqn:El; [|discriminate].
       pose proof (agree_grid_is_file _ _ _ _ _ El Hres) as Hn.
-      destruct (grid_is_file pint pflt pval (Some p) dt f o); try reflexivity. congruence.
+      destruct (grid_is_file pint pflt pval (Some (FStr p)) dt f o); try reflexivity. congruence.
+    + destruct ex; cbn [andb] in Hres; [|discriminate].
+      rewrite String.eqb_refl in Hres.
+      destruct (read_lines pint pflt pval (Some (FPathObj p)) dt f) as [g|] eqn:El; [|discriminate].
+      pose proof (agree_grid_is_file _ _ _ _ _ El Hres) as Hn.
+      destruct (grid_is_file pint pflt pval (Some (FPathObj p)) dt f o); try reflexivity. congruence.
     + destruct closed; cbn [hd_state hd_lines negb] in *; [discriminate|].
       destruct (read_lines pint pflt pval None dt f) as [g|] eqn:El; [|discriminate].
       pose proof (agree_grid_is_file _ _ _ _ _ El Hres) as Hn.
@@ -880,9 +925,11 @@ Proof.
     destruct (readable src) eqn:Er; [|reflexivity].
     destruct (well_formed pint pflt pval dt f) eqn:Ew; try reflexivity.
     exfalso.
-    destruct src as [p ex|closed]; cbn [model_source fst snd readable] in *.
+    destruct src as [p ex|p ex|closed]; cbn [model_source fst snd readable] in *.
     + subst ex. cbn [andb] in Hres. rewrite String.eqb_refl in Hres.
-      destruct (well_formed_loads (Some p) dt f Ew) as [g El]. rewrite El in Hres. discriminate.
+      destruct (well_formed_loads (Some (FStr p)) dt f Ew) as [g El]. rewrite El in Hres. discriminate.
+    + subst ex. cbn [andb] in Hres. rewrite String.eqb_refl in Hres.
+      destruct (well_formed_loads (Some (FPathObj p)) dt f Ew) as [g El]. rewrite El in Hres. discriminate.
     + destruct closed; [discriminate|]. cbn [hd_state hd_lines] in Hres.
       destruct (well_formed_loads None dt f Ew) as [g El]. rewrite El in Hres. discriminate.
 Qed.
